@@ -347,7 +347,7 @@ def demux_harness(which: str):
             I2.ghost["cur"] = None
             I2.ghost["dequeued"] = k.t
             I2.ghost["skipped0"] = k.t
-            fr.env["unexpected_packets"] = VList(
+            fr.env[loops.list_accumulator(fr)] = VList(
                 None, k.t, lambda j: VTuple([VObj(Stub, {"fid": VInt(FID(j))}, tag="skipped"),
                                              NONE]))
             for n in ("hdr", "payload", "item"):
@@ -355,7 +355,7 @@ def demux_harness(which: str):
                 fr.poison.add(n)
 
         def inv(I2: Interp, fr: Frame) -> list[tuple[str, Any]]:
-            up = fr.env["unexpected_packets"]
+            up = fr.env[loops.list_accumulator(fr)]
             out = [("every-dequeued-frame-so-far-was-kept-aside",
                     up.length() == I2.ghost["dequeued"])]
             if I2.ghost.get("cur") is not None:
